@@ -375,9 +375,17 @@ func randomScript(rng *rand.Rand) scriptIn {
 			in.Steps = append(in.Steps, step{Op: "openret", E: e, S: pick()})
 		case x < 24:
 			in.Steps = append(in.Steps, step{Op: "cancel", E: e, S: pick()})
-		case x < 55:
+		case x < 50:
 			in.Steps = append(in.Steps, step{Op: "recv", E: e})
-		case x < 72:
+		case x < 54:
+			in.Steps = append(in.Steps, step{Op: []string{"setwd", "setrd"}[rng.Intn(2)], E: e, S: pick(), N: rng.Intn(4)})
+		case x < 58:
+			in.Steps = append(in.Steps, step{Op: "wstart", E: e, S: pick(), N: 1 + rng.Intn(in.W+2)})
+		case x < 61:
+			in.Steps = append(in.Steps, step{Op: "rstart", E: e, S: pick(), N: 1 + rng.Intn(in.W+1)})
+		case x < 65:
+			in.Steps = append(in.Steps, step{Op: []string{"wend", "rend"}[rng.Intn(2)], E: e, S: pick()})
+		case x < 76:
 			in.Steps = append(in.Steps, step{Op: "write", E: e, S: pick(), N: rng.Intn(in.W + 3)})
 		case x < 92:
 			in.Steps = append(in.Steps, step{Op: "read", E: e, S: pick(), N: rng.Intn(in.W + 2)})
